@@ -49,9 +49,15 @@ impl AstCache {
 
             if path.is_file() && path.extension().is_some_and(|ext| ext == "rs") {
                 // Skip target directory and other build artifacts
-                if path.to_string_lossy().contains("/target/")
-                    || path.to_string_lossy().contains("/.git/")
-                {
+                // Only directories below the project path count: the project itself may live
+                // under a directory named target or .git
+                let relative = format!(
+                    "/{}",
+                    path.strip_prefix(project_path)
+                        .unwrap_or(path)
+                        .to_string_lossy()
+                );
+                if relative.contains("/target/") || relative.contains("/.git/") {
                     continue;
                 }
 
